@@ -3453,6 +3453,8 @@ class TensorDict(TensorDictBase):
         self, *keys: NestedKey, inplace: bool = False, set_shared: bool = True
     ) -> T:
         # faster than Base.exclude
+        if inplace and self.is_locked:
+            raise RuntimeError(_LOCK_ERROR)
         if not len(keys):
             return self.copy() if not inplace else self
         if not inplace:
